@@ -201,7 +201,24 @@ def rule_cas_epoch_blind(ctx):
     n = 0
     n0 = 0
     seen_exp = set()
-    for name, (side, kind) in CAS_METHODS.items():
+    # the six exchanges the rule was written for - and every other method of the two cell types that exchanges on the link (an
+    # exchange added later, `compare_exchange_counted`, is a compare_exchange: same obligations)
+    methods = dict(CAS_METHODS)
+    for nm, bb in sorted(prog.bodies.items()):
+        isf = bb.j.get("impl_self") or ""
+        if nm in methods or bb.kind == "closure" or nm in prog.auto_inline() or "::test" in nm or \
+                not ("strong::AtomicRc" in isf or "weak::AtomicWeak" in isf):
+            continue
+        if not any(norm(c.target or "") in ("atomic::Atomic::compare_exchange", "atomic::Atomic::compare_exchange_weak") or
+                   (c.target or "") in prog.auto_inline() for (_, _, c) in bb.calls()):
+            continue
+        try:
+            has = any(_link_cas_events(ctx, p_) for p_ in ex2.paths(bb))
+        except AnalysisError:
+            has = False
+        if has:
+            methods[nm] = ("strong" if "strong::AtomicRc" in isf else "weak", "extra")
+    for name, (side, kind) in methods.items():
         b = prog.body(name)
         r.functions.add(name)
         paths = ex2.paths(b)
@@ -216,6 +233,9 @@ def rule_cas_epoch_blind(ctx):
             # (0) the first exchange compares the cell with the word of the `expected` snapshot the caller passed (mutation sweep 3:
             #     `let mut expected_raw = desired.ptr;` - ledger, provenance and retry logic are all consistent with it)
             exp_idx = [k for k in range(2, b.arg_count + 1) if "Snapshot<" in b.local_ty(k)]
+            if not exp_idx and kind == "extra":
+                # an exchange with another kind of `expected` (a `&Weak`): the operand clause is the baseline methods'
+                exp_idx = [k for k in range(2, b.arg_count + 1) if any(x in b.local_ty(k) for x in ("Weak<", "Rc<"))][:1]
             if not exp_idx:
                 raise AnalysisError("CAS-EPOCH-BLIND: %s has no snapshot parameter to compare with" % name)
             e0 = cas[0][1]
